@@ -277,3 +277,69 @@ func stdJSONString(s string) string {
 	b, _ := json.Marshal(s)
 	return string(b)
 }
+
+// Bulk describes a large run of generated elements compactly (the case stays small): N
+// distinct strings of about Len bytes, deterministic in (Seed, index), with quotes,
+// backslashes, control bytes and multi-byte runes sprinkled in so that escapes fall on any
+// internal chunk boundary of a writer. Encoded sizes cross 16 KiB, 64 KiB and 1 MiB.
+type Bulk struct {
+	N    int `json:"n,omitempty"`
+	Len  int `json:"len,omitempty"`
+	Seed int `json:"seed,omitempty"`
+}
+
+var bulkShapes = []Bulk{{N: 300, Len: 20}, {N: 600, Len: 40}, {N: 1500, Len: 30}, {N: 2500, Len: 40}, {N: 5000, Len: 24}, {N: 20000, Len: 60}, {N: 40, Len: 30000}}
+
+// GenBulk draws no bulk (most cases), or one of the shapes.
+func GenBulk(rt *rapid.T) Bulk {
+	if rapid.IntRange(0, 3).Draw(rt, "bulk") != 0 {
+		return Bulk{}
+	}
+	b := rapid.SampledFrom(bulkShapes).Draw(rt, "bulkshape")
+	if b.N >= 20000 && rapid.IntRange(0, 2).Draw(rt, "bulkhuge") != 0 {
+		b = bulkShapes[rapid.IntRange(0, 4).Draw(rt, "bulkshape2")]
+	}
+	b.Seed = rapid.IntRange(0, 1000).Draw(rt, "bulkseed")
+	return b
+}
+
+var bulkSpice = []string{`"`, `\`, "\x01", "\n", "\u00fc", "\u65e5", "<", "\U0001F600", "'", "\t"}
+
+// Elem is the i-th element of the bulk.
+func (b Bulk) Elem(i int) string {
+	var sb strings.Builder
+	fmt.Fprintf(&sb, "e%d-", i)
+	x := uint32(b.Seed*7919 + i*2654435761)
+	for sb.Len() < b.Len {
+		x = x*1664525 + 1013904223
+		if x>>28 == 0 {
+			sb.WriteString(bulkSpice[(x>>8)%uint32(len(bulkSpice))])
+		} else {
+			sb.WriteByte(byte('a' + (x>>16)%26))
+		}
+	}
+	return sb.String()
+}
+
+// Strs returns the whole bulk.
+func (b Bulk) Strs() []evid.Str {
+	out := make([]evid.Str, b.N)
+	for i := range out {
+		out[i] = evid.Str(b.Elem(i))
+	}
+	return out
+}
+
+// sizeClass buckets an encoded response size around the chunking thresholds.
+func sizeClass(n int) string {
+	switch {
+	case n < 16<<10:
+		return "size:<16K"
+	case n < 64<<10:
+		return "size:16K-64K"
+	case n < 1<<20:
+		return "size:64K-1M"
+	default:
+		return "size:>=1M"
+	}
+}
